@@ -190,6 +190,15 @@ impl<F: Field + Send + Sync + 'static> NonPrimitiveExecutor<F> for RecomposeExec
         Some(1)
     }
 
+    fn created_input_witnesses(&self, inputs: &[Vec<WitnessId>]) -> Vec<WitnessId> {
+        // `recompose/coeff` sends each hint-derived coefficient with creator multiplicity.
+        if self.coeff_witness_ctl {
+            inputs.first().cloned().unwrap_or_default()
+        } else {
+            Vec::new()
+        }
+    }
+
     fn boxed(&self) -> Box<dyn NonPrimitiveExecutor<F>> {
         Box::new(self.clone())
     }
